@@ -21,6 +21,12 @@ def layout_classes(ctx):
     names = {k: g(k) for k in ('TRS_DESC', 'DESC_STR', 'S_DESC_TR', 'TR_DESC_S', 'COPY_ALL')}
     impl = g('_IMPLEMENTED_LAYOUTS')
     if set(impl) != set(names.values()) or len(impl) != 5:
+        missing = sorted(set(names.values()) - set(impl))
+        ctx.violation('TBL', 'every layout constant is in _IMPLEMENTED_LAYOUTS (the table the config reader validates against)',
+                      f"_IMPLEMENTED_LAYOUTS = {tuple(impl)}: {missing or 'duplicates / unknown entries'} "
+                      f"{'is' if len(missing) == 1 else 'are'} rejected as an unknown layout in a config string "
+                      f"('layout.{missing[0] if missing else '?'}') although the keyword form still works",
+                      key=f"TBL|_IMPLEMENTED_LAYOUTS|{','.join(missing)}")
         raise AnalysisError(f"_IMPLEMENTED_LAYOUTS = {impl}")
     meaningful = [v for k, v in names.items() if k != 'COPY_ALL']
     for v in meaningful:
